@@ -1,0 +1,41 @@
+//! Verification hooks (feature `verif-hooks`, default off, add-only).
+//!
+//! Re-exports of crate-private items of the foreign-field module for the external
+//! verification harness: the identity auxiliary-bounds function, the bounds of the
+//! multiplication and normalization gates, and the configure-time parameter check.
+
+use num_bigint::BigInt as BI;
+
+use super::{
+    gates::{mul::MulConfig, norm::NormConfig},
+    params::{check_params, FieldEmulationParams},
+    util::get_identity_auxiliary_bounds,
+};
+use crate::CircuitField;
+
+/// `((k_min, u_max), [(lj_min, vj_max)])`, the return type of the bounds functions.
+pub type AuxBounds = ((BI, BI), Vec<(BI, BI)>);
+
+/// [`get_identity_auxiliary_bounds`] (panics exactly when the original does).
+pub fn identity_auxiliary_bounds<F: CircuitField, K: CircuitField>(
+    moduli: &[BI],
+    expr_bounds: (BI, BI),
+    expr_mj_bounds: &[(BI, BI)],
+) -> AuxBounds {
+    get_identity_auxiliary_bounds::<F, K>("verif", moduli, expr_bounds, expr_mj_bounds)
+}
+
+/// `MulConfig::bounds`.
+pub fn mul_bounds<F: CircuitField, K: CircuitField, P: FieldEmulationParams<F, K>>() -> AuxBounds {
+    MulConfig::bounds::<F, K, P>()
+}
+
+/// `NormConfig::bounds`.
+pub fn norm_bounds<F: CircuitField, K: CircuitField, P: FieldEmulationParams<F, K>>() -> AuxBounds {
+    NormConfig::bounds::<F, K, P>()
+}
+
+/// `params::check_params` (panics exactly when the original does).
+pub fn verif_check_params<F: CircuitField, K: CircuitField, P: FieldEmulationParams<F, K>>() {
+    check_params::<F, K, P>()
+}
